@@ -55,7 +55,8 @@ KL(k, vs) == [k |-> k, vs |-> vs, m |-> "list", x |-> 0]
 KC(k, v) == [k |-> k, vs |-> <<v>>, m |-> "k", x |-> 0]
 KP(k, vs, x) == [k |-> k, vs |-> vs, m |-> "pconst", x |-> x]
 Bind(ks) == [t |-> "bind", ks |-> ks]
-Mono(s, ks) == [t |-> "mono", s |-> s, ks |-> ks]
+Mono(s, ks) == [t |-> "mono", s |-> s, ks |-> ks, ar |-> FALSE]
+MonoA(s, ks) == [t |-> "mono", s |-> s, ks |-> ks, ar |-> TRUE]
 SeqP(l) == [t |-> "seq", l |-> l]
 Chain(a, b) == [t |-> "chain", l |-> <<a, b>>]
 DeltaP(x, p) == [t |-> "delta", x |-> x, p |-> p]
@@ -85,6 +86,16 @@ Over2 == Bind(<<KC("instrument", VS("vn")), KL("harmonic", <<V(16), V(16), V(8)>
 MA == Mono("vg", <<KL("midinote", MN(<<60, 64, 69>>)), KC("dur", V(16)), KC("amp", V(512))>>)
 MB == Mono("vn", <<KL("degree", MN(<<0, 2>>)), KL("dur", D32(<<8, 24>>))>>)
 MI == Mono("vx", <<KC("freq", V(440 * 8)), KC("dur", V(16)), KC("cutoff", V(1024))>>)
+\* articulated voices: slurred / detached by legato, by an explicit sustain or delta that disagrees with legato, with
+\* stretch, with rests, on a gateless instrument
+AA == MonoA("vg", <<KL("midinote", MN(<<60, 61, 62, 63, 64, 65>>)), KC("dur", V(16)), KL("legato", D32(<<40, 16, 40, 40, 16, 40>>)), KC("amp", V(512))>>)
+AB == MonoA("vg", <<KL("midinote", MN(<<60, 62, 64, 65>>)), KC("dur", V(32)), KL("sustain", D32(<<48, 16, 48, 48>>))>>)                    \* default legato 0.8 says detached
+AC == MonoA("vx", <<KL("degree", MN(<<0, 1, 2, 3, 4>>)), KC("dur", V(32)), KL("delta", D32(<<16, 16, 40, 16, 16>>)), KC("cutoff", V(2048))>>) \* sustain 0.8 against delta 0.5 / 1.25
+AD == MonoA("vg", <<KL("midinote", <<V(60 * 64), V(62 * 64), VR(0), V(65 * 64), V(67 * 64)>>), KL("dur", D32(<<8, 16, 8, 8, 16>>)), KC("legato", V(48)), KC("stretch", V(16))>>)
+AE == MonoA("vn", <<KL("midinote", MN(<<57, 59, 61>>)), KC("dur", V(16)), KL("legato", D32(<<32, 32, 8>>)), KC("stretch", V(64))>>)             \* gateless: /n_free
+AF == MonoA("vg", <<KL("midinote", MN(<<60, 61, 62>>)), KC("dur", V(16)), KC("legato", V(64)), KL("sustain", D32(<<4, 40, 4>>))>>)               \* legato 2 but explicit short sustains
+AI == MonoA("vg", <<KC("midinote", V(60 * 64)), KC("dur", V(8)), KC("legato", V(40))>>)                                                          \* endless, slurred
+Artics == {AA, AB, AC, AD, AE, AF}
 Binds == {BA, BB, BC, BR, BD, BK, BL, BG, BDef}
 FewBinds == {BA, BB, BR}
 Progs1 == Binds \cup {MA, MB}
@@ -101,8 +112,12 @@ Progs1 == Binds \cup {MA, MB}
     \cup {Chain(o, a) : o \in {Over, Over2}, a \in {BA, BB, BR, BDef}}
     \cup {Par(<<m, a>>) : m \in {MA, MB}, a \in FewBinds}
     \cup {SeqP(<<m, a>>) : m \in {MA, MB}, a \in {BA}}
+    \cup Artics \cup {Par(<<a, b>>) : a \in Artics, b \in {BA, BB}} \cup {SeqP(<<a, BA>>) : a \in Artics}
+    \cup {DurP(x, a) : x \in {20, 40, 52}, a \in Artics \cup {AI}} \cup {Chain(o, a) : o \in {Over, Over2}, a \in {AA, AB, AC}}
+    \cup {DurP(36, Par(<<AI, BA>>)), Par(<<AA, AB>>)}
     \cup {DurP(24, Par(<<MI, BA>>)), SeqP(<<DurP(20, BI), BB>>), Par(<<DurP(20, BI), BB>>), DurP(28, Chain(Over, BI))}
-Progs == CASE Mode = "tiny" -> {BA, BR, Par(<<BA, BB>>), DurP(24, BI), MA, Chain(Over, BA), DeltaP(12, BB)}
+Progs == CASE Mode = "artic" -> Artics \cup {Par(<<AA, BA>>), DurP(20, AI), Chain(Over, AB)}
+           [] Mode = "tiny" -> {BA, BR, Par(<<BA, BB>>), DurP(24, BI), MA, Chain(Over, BA), DeltaP(12, BB)}
            [] Mode = "quick" -> Progs1
            [] OTHER -> Progs1 \cup {Par(<<a, b, c>>) : a \in Binds, b \in Binds, c \in {BB, MA}}
                               \cup {DurP(x, Par(<<a, b>>)) : x \in {12, 44}, a \in Binds, b \in Binds}
